@@ -414,9 +414,63 @@ def reindexed (i : IIndex) (mapping : Option (List (Int × Int))) (shift : Bool 
   let pre := reindexedPre i (reMapping i mapping) assumeUnique
   if shift ∧ pre.2 then shiftCommon pre.1 none else pure pre.1
 
+/-- `output[rowids] = v` -/
+def colSetRows (numrows : Nat) (a : Array Int) (rows : Rows) (v : Int) : M (Array Int) :=
+  rows.foldlM (fun a r => if r ≥ numrows then throw (.indexError "row") else pure (a.set! r v)) a
+
+/-- `common_count[rowids] -= 1` -/
+def colDec (numrows : Nat) (a : Array Int) (rows : Rows) : M (Array Int) :=
+  rows.foldlM (fun a r => if r ≥ numrows then throw (.indexError "row") else pure (a.set! r (a.getD r 0 - 1))) a
+
+/-- the gathering loop of `collapsed`: (mapped) value ↦ row-id lists in entry order, the new common value skipped -/
+def colGather (mp : Int → Int) (newCommon : Int) (g : List (Int × List Rows)) (e : Key × Rows) : List (Int × List Rows) :=
+  let nc := mp (val0 e.1)
+  if nc == newCommon then g else
+  match g.find? (fun p => p.1 == nc) with
+  | some _ => g.map (fun p => if p.1 == nc then (p.1, p.2 ++ [e.2]) else p)
+  | none => g ++ [(nc, [e.2])]
+
+/-- one row-id list of a listed precedence value: write the value; count the cells down until the common value
+has been written -/
+def colInner (numrows : Nat) (coord : Int) (st : Array Int × Array Int × Bool) (rows : Rows) :
+    M (Array Int × Array Int × Bool) := do
+  let out' ← colSetRows numrows st.1 rows coord
+  let cc' ← if !st.2.2 then colDec numrows st.2.1 rows else pure st.2.1
+  pure (out', cc', st.2.2)
+
+/-- one precedence value, lowest precedence first -/
+def colStep (numrows : Nat) (dt : DT) (newCommon : Int) (gget : Int → List Rows)
+    (st : Array Int × Array Int × Bool) (coord : Int) : M (Array Int × Array Int × Bool) :=
+  if coord == newCommon then
+    pure ((List.range numrows).foldl (fun (o : Array Int) r =>
+      if st.2.1.getD r 0 != 0 then o.set! r coord else o) st.1, st.2.1, true)
+  else
+    if !dt.contains coord then throw (.overflow "precedence value") else
+    (gget coord).foldlM (colInner numrows coord) st
+
+/-- `common_count`: per row, the number of cells not yet known to hold something other than the common value -/
+def colCounts (numrows numcols : Nat) (track : Bool) (gathered : List (Int × List Rows)) (gget : Int → List Rows)
+    (precedence : List Int) (default : Int) : M (Array Int) := do
+  let cc0 : Array Int := Array.replicate numrows (numcols : Int)
+  let cc1 ← if track then (gget default).foldlM (colDec numrows) cc0 else pure cc0
+  if track then
+    gathered.foldlM (fun cc (p : Int × List Rows) =>
+      if precedence.contains p.1 then pure cc else p.2.foldlM (colDec numrows) cc) cc1
+  else pure cc1
+
+/-- the per-row output of `collapsed` -/
+def collapseCore (numrows numcols : Nat) (dt : DT) (newCommon : Int) (gathered : List (Int × List Rows))
+    (precedence : List Int) (default : Int) : M (Array Int) := do
+  let gget (c : Int) : List Rows := ((gathered.find? (fun p => p.1 == c)).map (·.2)).getD []
+  let track := default != newCommon
+  let cc ← colCounts numrows numcols track gathered gget precedence default
+  let st ← (precedence.dropLast.reverse).foldlM (colStep numrows dt newCommon gget)
+    (Array.replicate numrows default, cc, !track)
+  pure st.1
+
 /-- `collapsed(precedence, mapping)` -/
-def collapsed (i : IIndex) (precedence : List Int) (mapping : Option (List (Int × Int))) : M IIndex := do
-  if i.shape.length < 2 then throw (.typeError "Cannot collapse: no column axis")
+def collapsed (i : IIndex) (precedence : List Int) (mapping : Option (List (Int × Int))) : M IIndex :=
+  if i.shape.length < 2 then throw (.typeError "Cannot collapse: no column axis") else
   let mp (v : Int) : Int := match mapping with
     | none => v
     | some m => (lookup m v).getD v
@@ -428,42 +482,10 @@ def collapsed (i : IIndex) (precedence : List Int) (mapping : Option (List (Int 
   | none => throw (.valueError "max() of empty precedence")
   | some default =>
   -- gathered: (possibly mapped) coordinate -> list of row-id lists, in entry order
-  let gathered : List (Int × List Rows) := i.entries.foldl (fun g (e : Key × Rows) =>
-    let nc := mp (val0 e.1)
-    if nc == newCommon then g else
-    match g.find? (fun p => p.1 == nc) with
-    | some _ => g.map (fun p => if p.1 == nc then (p.1, p.2 ++ [e.2]) else p)
-    | none => g ++ [(nc, [e.2])]) []
-  let gget (c : Int) : List Rows := ((gathered.find? (fun p => p.1 == c)).map (·.2)).getD []
+  let gathered : List (Int × List Rows) := i.entries.foldl (colGather mp newCommon) []
   let dt := fitDtype (listMax precedence (precedence.headD 0)) (min (listMin precedence (precedence.headD 0)) 0)
-  if !dt.contains default then throw (.overflow "precedence value") else
-  let out0 : Array Int := Array.replicate numrows default
-  let setRows (a : Array Int) (rows : Rows) (v : Int) : M (Array Int) :=
-    rows.foldlM (fun a r => if r ≥ numrows then throw (.indexError "row") else pure (a.set! r v)) a
-  let dec (a : Array Int) (rows : Rows) : M (Array Int) :=
-    rows.foldlM (fun a r => if r ≥ numrows then throw (.indexError "row") else pure (a.set! r (a.getD r 0 - 1))) a
-  let track := default != newCommon
-  let cc0 : Array Int := Array.replicate numrows (numcols : Int)
-  let cc1 ← if track then (gget default).foldlM dec cc0 else pure cc0
-  let cc2 ← if track then
-      gathered.foldlM (fun cc (p : Int × List Rows) =>
-        if precedence.contains p.1 then pure cc else p.2.foldlM dec cc) cc1
-    else pure cc1
-  let (out, _, _) ← (precedence.dropLast.reverse).foldlM
-    (fun (st : Array Int × Array Int × Bool) coord => do
-      let (out, cc, written) := st
-      if coord == newCommon then
-        let out' := (List.range numrows).foldl (fun (o : Array Int) r =>
-          if cc.getD r 0 != 0 then o.set! r coord else o) out
-        pure (out', cc, true)
-      else
-        if !dt.contains coord then throw (.overflow "precedence value") else
-        (gget coord).foldlM (fun (st : Array Int × Array Int × Bool) rows => do
-          let (out, cc, written) := st
-          let out' ← setRows out rows coord
-          let cc' ← if !written then dec cc rows else pure cc
-          pure (out', cc', written)) (out, cc, written))
-    (out0, cc2, !track)
+  if !dt.contains default then throw (.overflow "precedence value") else do
+  let out ← collapseCore numrows numcols dt newCommon gathered precedence default
   let r ← fromArray { shape := [numrows], data := out.toList } {}
   pure r.1
 
